@@ -185,7 +185,7 @@ fn replace_html_char<'a>(ch: char) -> Cow<'a, str> {
     }
 }
 
-fn escape_html_text(s: &str) -> String {
+pub(crate) fn escape_html_text(s: &str) -> String {
     s.chars().map(replace_html_char).collect()
 }
 
